@@ -427,6 +427,18 @@ def program_st(draw, **opts):
         path = f"f{tag}.mac"
         files[path] = body
         mains.append(path)
+    ndecoys = 0
+    if nfiles > 1 and opts.get("decoys", True):
+        # another file exports a constant that carries the name of a private symbol of this file: the file's own definition wins,
+        # wherever it stands and in whatever order the files are linked
+        for f, (tag, consts, labels, exp, aconsts) in enumerate(plan):
+            for name in consts + labels + aconsts:
+                if name in exp or draw(st.integers(0, 5)) != 0:
+                    continue
+                g = draw(st.sampled_from([x for x in range(nfiles) if x != f]))
+                body = files[mains[g]]
+                body.insert(draw(st.integers(0, len(body))), {"k": "assign", "name": name, "e": ("num", draw(st.sampled_from([0, 2, 0o40000, 0o1000, 0o177776]))), "export": True})
+                ndecoys += 1
     blobs = {}
     ninc = 0
     if opts.get("includes") or opts.get("inserts"):
@@ -459,7 +471,7 @@ def program_st(draw, **opts):
         for s_ in files[mains[0]]:
             if s_["k"] == "link":
                 s_["e"] = ("num", base)
-    return {"files": files, "blobs": blobs, "mains": mains, "charset": "bk", "meta": {"base_form": form, "base": base}}
+    return {"files": files, "blobs": blobs, "mains": mains, "charset": "bk", "meta": {"base_form": form, "base": base, "decoys": ndecoys}}
 
 
 def even_points(body):
